@@ -29,7 +29,17 @@ fn write_archive(dir: &Path, bands: &Value) {
             if kind == "Symlink" {
                 j["target"] = e["target"].clone();
             }
-            if kind == "File" && e["blocks"].is_array() {
+            if e["addr_raw"].is_object() {
+                // a decoded address exactly as the solver chose it: into the block of class `class`/`block_len`, or a missing block
+                let a = &e["addr_raw"];
+                let h = if a["present"].as_bool().unwrap_or(true) {
+                    let data = bytes_for(a["class"].as_u64().unwrap_or(5), a["block_len"].as_u64().unwrap_or(10) as usize);
+                    hex::encode(blake2_rfc::blake2b::blake2b(64, &[], &data).as_bytes())
+                } else {
+                    "f".repeat(128)
+                };
+                j["addrs"] = json!([{"hash": h, "start": a["start"].as_u64().unwrap_or(0), "len": a["len"].as_u64().unwrap_or(0)}]);
+            } else if kind == "File" && e["blocks"].is_array() {
                 // a file stored in several blocks: content = bytes_for(class, sum), cut at the given lengths
                 let lens: Vec<usize> = e["blocks"].as_array().unwrap().iter().map(|l| l.as_u64().unwrap() as usize).collect();
                 let all = bytes_for(e["class"].as_u64().unwrap_or(1), lens.iter().sum());
